@@ -21,6 +21,7 @@ META = {
     "assumptions": [],
 }
 META["explanation"] += " R04.3 (value and marked version under one guard) is evaluated here for the clause 'never suspended over an unobserved update'."
+META["explanation"] += ' Shared with C01: R01.1 (every mutable access to the value reaches the notify function on every path - a "no subscribers" fast path that stores without notifying loses the wake-up of a subscriber it did not see) and R01.13.'
 
 NEXT = r"(^|::)Iterator(>)?::next$|^<.* as std::iter::Iterator>::next$"
 
@@ -44,6 +45,13 @@ def run(ctx):
     groups.eyeball_poll_typestate(ctx)
     # "never suspended over an unobserved update": a subscriber that marks a version it did not hand out parks on top of it
     c04.r04_3(ctx)
+    # an update that is stored without the version bump / the wake (a "nobody is listening" fast path) leaves a parked subscriber asleep
+    from . import c01
+    notify = find_notify_fn(F)
+    if notify:
+        nset = c01.NotifySet(notify)
+        c01.r01_1(ctx, nset)
+        c01.r01_13(ctx, nset)
 
 
 def r02_3(ctx, wake_fn):
